@@ -96,7 +96,7 @@ add("C10", "TestC10",
           "three ways (type cast, two xpath matches [xml], custom function error [javascript throw]). Oracle: out(r1..rn) = "
           "out(r1)++...++out(rn) (single-record runs), out(A++B) = out(A)++out(B), out(perm R) = perm out(R), replacement changes exactly "
           "that position into a per-record failure; compared on (kind, JSON, checksum). Non-trivial: a split between differently sized "
-          "records, a permutation that moves a record, or a failing replacement not in last position; distinct by SHA-256 of the case. A third of the cases contain a near-duplicate pair: a copy of a record, right after it, that differs in one value only (for XML shapes possibly an attribute of a text-only element)."),
+          "records, a permutation that moves a record, or a failing replacement not in last position; distinct by SHA-256 of the case. A third of the cases contain a near-duplicate pair: a copy of a record, right after it, that differs in one value only (for XML shapes possibly an attribute of a text-only element). XML shapes may give their records two different element names with a wildcard as last step of the target xpath."),
     quick={"checks": 1500, "shards": 4, "timeout": 600},
     thorough={"checks": 10000, "shards": 16, "timeout": 3000},
     floors={"permuted": 0.4, "bad-not-last": 0.15, "bad-kind=1": 0.1, "bad-kind=2": 0.01, "bad-kind=3": 0.02, "xform=2": 0.15},
@@ -127,10 +127,10 @@ add("C17", "TestC17",
           "bytes per record suffice at k=1000 -, a cache filling up shows in one; the unchanged code stays under 16 KiB per case, see "
           "counters.heap_arm_growth_bytes / heap_arm_growth_over_16KiB). "
           "Non-trivial: >= 50 delivered records with filtered-out candidates between deliveries (tree arms), >= 1000 delivered records "
-          "(heap arm); distinct by SHA-256 of the case. XML shapes take a positional predicate ([position() <= 1000000], true for every candidate) instead of the value filter in a quarter of the cases; JSON shapes of the heap arm write their records as properties of one object under distinct names half of the time."),
+          "(heap arm); distinct by SHA-256 of the case. XML shapes take a positional predicate ([position() <= 1000000], true for every candidate) instead of the value filter in a quarter of the cases; JSON shapes of the heap arm write their records as properties of one object under distinct names half of the time. csv2 / fixedlength2 shapes may wrap their declarations in one repeatable group whose first member is the target."),
     quick={"checks": 150, "shards": 4, "timeout": 900},
     thorough={"checks": 1500, "shards": 16, "timeout": 3300},
-    floors={"filtered-candidates": 0.25, "sep=1": 0.3, "k>=2000": 0.03, "arm=live-heap": 0.08},
+    floors={"filtered-candidates": 0.25, "sep=1": 0.3, "k>=2000": 0.015, "arm=live-heap": 0.08},
     assumptions=["tree arms: only the size of the reachable node tree is a verdict",
                  "live-heap arm: one rapid goroutine per process, nothing else allocates between the samples; the slack (64 KiB in total and "
                  "21 KiB in each half) is 4x above the largest growth ever measured on the unchanged code (< 16 KiB per case over ~700 cases)"])
@@ -262,7 +262,7 @@ add("C03", "TestC03", note_current=True,
           "copies, binary noise, a 70 KB line, empty. Monitors: recover() around NewSchema, NewTransform, every Read, RawRecord and "
           "Checksum; per-case watchdog (20 s wall AND >= 10 s process CPU => hang; otherwise inconclusive); a finite input of n bytes "
           "must reach a terminal result within 2n+64 Reads. Non-trivial: NewSchema accepted a mutated schema, or the input is not the "
-          "matching one and at least one Read ran; distinct by SHA-256 of the case. Mutation op 12 edits one record/envelope/segment declaration (second is_target, deleted name, max 0, min 0 max 0, max 1)."),
+          "matching one and at least one Read ran; distinct by SHA-256 of the case. Mutation op 12 edits one record/envelope/segment declaration (second is_target, deleted name, max 0, min 0 max 0, max 1). Input kind 7 puts the matching input behind another prolog (XML declarations with encoding labels and versions, DTD, byte-order marks); argument lists may get a surplus argument without a value."),
     quick={"checks": 5000, "shards": 8, "timeout": 900},
     thorough={"checks": 60000, "shards": 16, "timeout": 3300, "fuzz": [{"target": "FuzzC03", "time": 240}]},
     floors={"accepted-mutant": 0.12, "malformed-input": 0.25, "base=sample": 0.3, "base=shape": 0.3},
@@ -278,7 +278,7 @@ add("C11", "TestC11",
           "is evaluated by idr.QueryIter over the stream reader's tree, by antchfx/xmlquery (normalised) and by a second reference "
           "navigator; results compared as lists of (address, kind, qualified name, string value); MatchAll/MatchAny/MatchSingle must "
           "agree with the iterator. Non-trivial: >= 2 top-level steps, uses an attribute axis, a reverse/sibling axis or a positional "
-          "predicate, and selects >= 1 node; distinct by SHA-256 of the case. MatchAll is evaluated with the expression cache off and on (same selection); literals and text values include runs of blanks, a tab and line breaks."),
+          "predicate, and selects >= 1 node; distinct by SHA-256 of the case. MatchAll is evaluated with the expression cache off and on (same selection); literals and text values include runs of blanks, a tab and line breaks. One expression in twenty is nothing but an element name or name/name (bare or prefixed); node-sets of the ancestor axes take part in general comparisons."),
     quick={"checks": 25000, "shards": 4, "timeout": 600},
     thorough={"checks": 1000000, "shards": 16, "timeout": 3300},
     floors={"non-empty": 0.5, "attribute-axis": 0.2, "reverse-or-sibling-axis": 0.2, "non-empty+attribute-axis": 0.1,
@@ -350,7 +350,7 @@ add("C05", "TestC05", note_current=True,
           "repetition pinned by the repo's test) - same target trees from RawRecord().Raw(), same count, same terminal kind, same copy() "
           "JSON; EDI tokenizer observed directly. Thorough tier adds TestC05Enum: per drawn hierarchy ALL unit sequences up to length 6 "
           "over its alphabet plus X. Non-trivial: the model makes >= 1 move-on decision and >= 1 repeat; distinct by SHA-256 of the case. Every case is also delivered byte by byte (final byte together with io.EOF): same outcome as the whole input. fixedlength2 hierarchies in 40 % of the cases start every line with 1 or 3 pad characters and write their header/footer/line_pattern regexes without the '^' anchor. One case in ten is a long input (a valid instance repeated to 4-9 KB, blank lines cycled; half of these fixedlength2): line buffers roll over while records are being assembled (class long-input)."),
-    quick={"checks": 2500, "shards": 4, "timeout": 900},
+    quick={"checks": 4000, "shards": 4, "timeout": 900},
     thorough={"checks": 60000, "shards": 16, "timeout": 3300, "extra": [{"test": "TestC05Enum", "checks": 25, "shards": 16}]},
     floors={"long-input": 0.05, "outcome=fatal": 0.30, "target-in-group": 0.20, "format=edi": 0.15, "format=csv2": 0.15, "format=fixedlength2": 0.15,
             "no-final-terminator": 0.08, "blank-lines": 0.10, "empty-input": 0.03, "edi-root-repeats": 0.01,
@@ -421,7 +421,7 @@ add("C20", "TestC20", race=True, note_current=True,
           "_node scripts; arguments strings, ints, floats, bools; nodes mutated between calls. Oracle: each result equals the same "
           "script on a brand-new goja runtime created in the harness with _node = idr.JSONify2(node now): error <=> error, equal JSON. "
           "Built with -race. Non-trivial: a call probes a name that an earlier call on the same goroutine/transform set, or a _node call "
-          "hits a node whose JSON differs from its previous _node call; distinct by SHA-256 of the case. One call in eight with arguments has an ill-formed argument list (a non-string argument name after 0-2 well-formed pairs): the call must fail and nothing of it may reach a later call (class ill-formed-argument-list)."),
+          "hits a node whose JSON differs from its previous _node call; distinct by SHA-256 of the case. One call in eight with arguments has an ill-formed argument list (a non-string argument name after 0-2 well-formed pairs): the call must fail and nothing of it may reach a later call (class ill-formed-argument-list). Rarely an argument is called _node."),
     quick={"checks": 300, "shards": 4, "timeout": 900, "gomaxprocs": 8},
     thorough={"checks": 8000, "shards": 16, "timeout": 3300, "gomaxprocs": 8},
     floors={"ill-formed-argument-list": 0.15, },
@@ -458,7 +458,7 @@ add("C02", "TestC02",
           "idr.MatchAll without cache. Where the documentation is silent (kept empty container as null / {} / []; failing xpath_dynamic; "
           "failing argument under ignore_error) all documented-compatible outcomes are accepted and counted. Non-trivial: identical "
           "declaration text with an anchor at >= 2 positions, or a template used at >= 2 places, or an array of >= 10 children, or >= 3 "
-          "nested anchors; distinct by SHA-256 of the case. Custom functions include two caller-registered ones (Extension built with customfuncs.Merge): c02mix(string, int64, bool, float64) and the variadic c02var(string, ...interface{}), with absent, well-typed constant and cast arguments."),
+          "nested anchors; distinct by SHA-256 of the case. Custom functions include two caller-registered ones (Extension built with customfuncs.Merge): c02mix(string, int64, bool, float64) and the variadic c02var(string, ...interface{}), with absent, well-typed constant and cast arguments. One-parameter functions sometimes get a surplus argument (with or without a value); javascript calls with numeric results are cast with type (float -> int truncates toward zero)."),
     quick={"checks": 2000, "shards": 4, "timeout": 900},
     thorough={"checks": 15000, "shards": 16, "timeout": 3300},
     floors={"identical-text": 0.05, "template-multi-use": 0.05, "array>=10": 0.05, "deep-anchors": 0.05,
@@ -492,7 +492,7 @@ add("C08", "TestC08",
           "CDATA, references, comments, PIs, prolog; the reader's tree must be isomorphic to a token-level DOM built from a second "
           "xml.Decoder (element order, local name, prefix, URI, attributes in order as leading children, merged character data). "
           "Non-trivial: JSON - a 0-or-1-member container, an empty key or a non-integer number; XML - >= 2 namespace bindings, mixed "
-          "content or CDATA/references; distinct by SHA-256 of the case. One JSON case in 60 is a chain of 300-1100 nested arrays/objects."),
+          "content or CDATA/references; distinct by SHA-256 of the case. One JSON case in 60 is a chain of 300-1100 nested arrays/objects. XML documents reach the reader as *strings.Reader or through a plain io.Reader (whole / 7-byte pieces / one byte per Read); pure-ASCII documents may declare a single-byte encoding."),
     quick={"checks": 2500, "shards": 4, "timeout": 900},
     thorough={"checks": 50000, "shards": 16, "timeout": 3300},
     floors={},
